@@ -25,6 +25,7 @@ sort the result.
 | pool operand = its flattened histogram | `C01_pool_operand` (+ `C03_noargs`: `P.h()` is the sum of the dice) |
 | zero-count entries never change a count | `C01_zero_pad_left`, `C01_zero_pad_right` |
 | the formula is symmetric in the operands: `a op b` and `b op' a` (`op'` = `op` with its arguments swapped) have the same counts, so a commutative operator commutes on histograms | `C01_swap`, `C01_commutative` |
+| iterating the formula: for an associative operator `(a op b) op c` and `a op (b op c)` have the same counts (sums of several dice do not depend on bracketing) | `C01_associative` |
 | unreduced counts scale the result linearly | `C01_scale_left`, `C01_scale_right` |
 -/
 namespace Dyce
@@ -44,6 +45,11 @@ theorem C01_swap (le : γ → γ → Bool) (op : α → β → γ) (a : Hist α)
 theorem C01_commutative (le : γ → γ → Bool) (op : α → α → γ) (hop : ∀ x y, op x y = op y x)
     (a b : Hist α) (z : γ) : countOf z (mapH le op a b) = countOf z (mapH le op b a) :=
   countOf_mapH_comm le op hop a b z
+
+theorem C01_associative {α : Type} [DecidableEq α] (le : α → α → Bool) (op : α → α → α)
+    (hop : ∀ x y w, op (op x y) w = op x (op y w)) (a b c : Hist α) (z : α) :
+    countOf z (mapH le op (mapH le op a b) c) = countOf z (mapH le op a (mapH le op b c)) :=
+  countOf_mapH_assoc le op hop a b c z
 
 theorem C01_total (le : γ → γ → Bool) (op : α → β → γ) (a : Hist α) (b : Hist β) :
     total (mapH le op a b) = total a * total b :=
